@@ -394,6 +394,7 @@ pub(crate) fn run(seed: u64, n: u64, out: &mut Out) {
                 }
             }
             if let Some(p) = index_problem(&net, &bc, &pool, &reg, if tainted { "substituted-block-hash" } else { what }) { problems.push(p); }
+            if let Some(p) = table_problem(&net) { problems.push(p); }
             let skipped = problems.iter().any(|p| p.contains("skip"));
             let oracle = if problems.is_empty() { Ok(()) } else { Err(problems.join(" || ")) };
             out.case(&format!("filters-{}", case_no), &["block-filters", what, if start <= fin_index as u64 * interval { "cached-regime" } else { "latest-regime" }],
@@ -405,6 +406,21 @@ pub(crate) fn run(seed: u64, n: u64, out: &mut Out) {
     }
 }
 
+
+/// Model/MatchedBlocks.v, invariant [table_inv]: the in-memory download table is empty or mirrors the EARLIEST pending record
+/// (the precondition under which SyncProtocol's expect / assert_eq / assert cannot fire)
+pub(crate) fn table_problem(net: &Net) -> Option<String> {
+    use std::collections::HashSet;
+    let mem: HashSet<Vec<u8>> = net.peers.matched_blocks().read().ok()?.keys().map(|h| h.as_bytes().to_vec()).collect();
+    if mem.is_empty() { return None; }
+    match net.storage.get_earliest_matched_blocks() {
+        None => Some(format!("[C10-table-does-not-mirror-earliest-record] the in-memory download table holds {} hashes although no matched-blocks record is pending: the next SendBlock that completes it aborts at expect(\"get matched blocks from storage\")", mem.len())),
+        Some((start, _, blocks)) => {
+            let rec: HashSet<Vec<u8>> = blocks.iter().map(|b| b.0.as_slice().to_vec()).collect();
+            if rec != mem { Some(format!("[C10-table-does-not-mirror-earliest-record] the in-memory download table ({} hashes) is not the image of the earliest pending record (start {}, {} hashes): SyncProtocol's assert_eq / assert on completion can fire", mem.len(), start, rec.len())) } else { None }
+        }
+    }
+}
 
 /// every registered script's index against the chain, up to the number get_scripts reports for it
 fn index_problem(net: &Net, bc: &BodyChain, pool: &[packed::Script], reg: &[(usize, bool, u64)], what: &str) -> Option<String> {
